@@ -41,7 +41,7 @@ OpaquePair(pr) == IF Unknown(pr[1]) \/ Unknown(pr[2]) THEN <<-1, -1>> ELSE pr
 \* logged message -> specification message
 NormMsg(m) ==
   CASE m.t = "Q" -> [t |-> "Q", vs |-> m.vs]
-    [] m.t = "E" -> [t |-> "E"]
+    [] m.t = "E" -> [t |-> "E", code |-> m.code]
     [] m.t = "P" -> [t |-> "P", text |-> m.text, tag |-> m.tag, tagged |-> m.tagged]
     [] m.t = "DHC" -> [t |-> "DHC", v |-> m.v, st |-> m.st, rt |-> m.rt, enc |-> m.enc, hash |-> m.hash]
     [] m.t = "DHK" -> [t |-> "DHK", v |-> m.v, st |-> m.st, rt |-> m.rt, gy |-> m.gy]
@@ -165,6 +165,9 @@ OwnerOfId(id) == IF (id > 100 /\ id < 200) \/ (id >= 100000 /\ id < 200000) THEN
                  ELSE IF (id > 300 /\ id < 400) \/ (id >= 300000 /\ id < 400000) THEN "E"
                  ELSE IF (id > 400 /\ id < 500) \/ (id >= 400000 /\ id < 500000) THEN "C" ELSE "?"
 
+\* the long-term key a principal signs with at this point of the trace
+KeyNow(o) == IF o \in Parties THEN st[o].key ELSE KeyOf(o)
+
 \* set of <<property, reason>> violated by event e (pre-state st, post observation o)
 PropViolations(e, o) ==
   LET p == e.p
@@ -176,7 +179,7 @@ PropViolations(e, o) ==
   \cup (IF fifoData /\ ~IsPrefixSeq(TextsOf(o.delivered[p]), o.accepted[q])
         THEN {<<"C04", "delivery is not a prefix of what the peer sent">>} ELSE {})
   \cup (IF fifoData /\ e.ev = "Done" /\ e.qa = 0 /\ e.qb = 0
-           /\ \E r \in Parties : TextsOf(o.delivered[r]) # o.accepted[Other(r)]
+           /\ \E r \in {"A", "B"} : TextsOf(o.delivered[r]) # o.accepted[Other(r)]
         THEN {<<"C04", "text lost at quiescence">>} ELSE {})
   \cup (IF e.ev = "Recv" /\ e.plain > 0 /\ e.m.t = "D" /\ ~e.prs
            /\ \E i \in DOMAIN obs.delivered[p] : obs.delivered[p][i][1] = e.plain /\ obs.delivered[p][i][4] /\ ~obs.delivered[p][i][3]
@@ -219,13 +222,13 @@ PropViolations(e, o) ==
            /\ ~(e.m.t = "D" /\ e.m.mac[1] > 0 /\ <<e.m.mac[1], e.m.mac[2]>> = <<TheirKey(st[p], e.m.skid), OurKey(st[p], e.m.rkid)>>)
         THEN {<<"C02", "a tampered or forged message yielded plaintext">>} ELSE {})
   \cup (IF e.ev # "Done" /\ o.fam # "relay" /\ e.st.ms = "enc" /\ HasEv(e, "sec:GoneSecure") /\
-             ~(/\ e.st.peer \in {"A", "B", "E"}
+             ~(/\ e.st.peer \in {"A", "B", "E", "X"}
                /\ e.st.sess[1] > 0 /\ e.st.sess[2] > 0
-               /\ {KeyOf(OwnerOfId(e.st.sess[1])), KeyOf(OwnerOfId(e.st.sess[2]))} = {KeyOf(p), e.st.peer}
-               /\ e.st.tcur > 0 /\ KeyOf(OwnerOfId(e.st.tcur)) = e.st.peer
+               /\ {KeyNow(OwnerOfId(e.st.sess[1])), KeyNow(OwnerOfId(e.st.sess[2]))} = {KeyNow(p), e.st.peer}
+               /\ e.st.tcur > 0 /\ KeyNow(OwnerOfId(e.st.tcur)) = e.st.peer
                /\ {e.st.prev, e.st.tcur} = {e.st.sess[1], e.st.sess[2]})
         THEN {<<"C01", "encrypted with a peer key, DH value or session id that does not belong to the party that signed the exchange">>} ELSE {})
-  \cup (IF e.ev # "Done" /\ e.st.ms = "enc" /\ (HasEv(e, "sec:GoneSecure") \/ HasEv(e, "sec:StillSecure")) /\ e.st.peer = KeyOf(p)
+  \cup (IF e.ev # "Done" /\ e.st.ms = "enc" /\ (HasEv(e, "sec:GoneSecure") \/ HasEv(e, "sec:StillSecure")) /\ e.st.peer = KeyNow(p)
            /\ o.fam # "reflect"
         THEN {<<"C01", "encrypted with itself">>} ELSE {})
   \cup (IF e.ev = "Recv" /\ st[p].ver = 0 /\ e.st.ver # 0 /\ e.m.t \in {"Q", "P", "DHC", "DHK", "RS", "SIG", "D"} /\
@@ -347,6 +350,13 @@ DoStep(e) ==
      /\ \A v \in pv : ReportProp(e, v)
      /\ obs' = [o EXCEPT !.flagged = @ \cup pv]
 
+\* the user of endpoint e.p starts over with a fresh conversation object (same client: same instance tag) that
+\* signs with another long-term key; the peer keeps its conversation
+DoReset(e) ==
+  /\ st' = [st EXCEPT ![e.p] = [InitParty(e.p, PolOf(e.pol), 0) EXCEPT !.otag = st[e.p].otag, !.key = e.key]]
+  /\ obs' = [obs EXCEPT !.lastsec[e.p] = "none", !.used[e.p] = {}]
+  /\ mism' = mism
+
 DoDone(e) ==
   LET pv == {v \in PropViolations(e, obs) \cup MultiViolations(e, obs) : v \notin obs.flagged}
   IN /\ \A v \in pv : ReportProp(e, v)
@@ -359,6 +369,7 @@ TraceNext ==
   /\ LET e == Trace[l] IN
        CASE e.ev = "Init" -> DoInit(e)
          [] e.ev = "Done" -> DoDone(e)
+         [] e.ev = "Reset" -> DoReset(e)
          [] OTHER -> DoStep(e)
 
 TraceSpec == TraceInit /\ [][TraceNext]_vars
